@@ -67,6 +67,24 @@ CHECKS = {
    note="memdb; version-vector rows read through verif-tagged accessor; Activate always creates a new client identity (as the server does); failing Attach modelled only from the never-attached state."),
 }
 
+# Families added after the first complete version; appended to the level text.
+EXTRA = {
+ "C01": " Tree edits include inline elements (mixed content); ranges stay inside one parent.",
+ "C02": " Tree edits include inline elements (mixed content).",
+ "C03": " Every fifth history has ONE writer that syncs seldom while its readers sync and collect (the fence of recorded finding F-RGA-PURGE is off there: nothing is concurrent), so the writer edits and moves next to tombstones its readers have purged. Tree edits include inline elements.",
+ "C04": " Every eighth sync of the parallel family is in flight twice (a retransmission racing its original, recorded as an event of its own; the sequential model's append is idempotent per change id).",
+ "C05": " sdk family: the real client.Client (manual sync) re-syncing after injected storage faults at random points; every edit appends a unique string to one array, so exactly-once is read off the content (no id twice, none missing, replicas equal).",
+ "C07": " Trees include inline elements between texts (mixed content) and every cursor position inside a block is addressed; the index/path round trip is asserted only where paths are unambiguous (text-only or element-only parents).",
+ "C08": " Structural monitors after every step on document and working copy: splay weights, insertion chains of text and tree-text pieces linked in offset order, every element registered at the root, a collection that purges nothing runs through.",
+ "C10": " Stale clients push changes with operations, with operations and presence, and with presence only; in a third of the cases the second generation of the log outgrows the first before the second compaction.",
+ "C12": " sdk family (every eighth case): the real client.Client - attach with and without WithPresence / WithDisablePresence (later attachers asking for the other setting), updates with and without presence, sync, push-only sync, detach and re-attach, deactivate - with the same oracle on MyPresence()/AllPresences() and on the stored log.",
+ "C14": " Collection steps (the sync of the only attached client purges every tombstone) in the random families and as three variants of every exhaustive program (none / once before the undo walk / after every call); an approximate-array family (set-by-index, moves, deletions under collection); the structural monitors of C08 after every undo/redo/collect. Symptoms of recorded findings are counted and never end an enumeration.",
+ "C15": " A 'tick' macro event (one replica makes an unrelated edit that everybody else pulls, which puts the others' Lamport clocks ahead of its own) gives both ticket orders of an undo against a concurrent edit. Every undo/redo that changes the author's document must leave a local change behind. Symptoms of recorded findings are counted and never end an enumeration (quick: 640 k histories). F-UNDO-AFTER-PURGE is identified from the execution: some replica re-created a node it had purged, and the replicas differ in placement only or a later edit followed.",
+ "C16": " Every second storm runs in a project with an attachment limit (never reached), so that attach and detach take the doc-attachment locker.",
+ "C17": " The watch family pushes through sync, push-only sync, Detach (edit, then detach) and Attach; the sdk-watch family runs real client.Client instances in realtime mode: an edit of one must show up in the documents of the others within 5 s without anybody calling Sync.",
+ "C20": " Every second snapshot case ends with a compaction after which the new generation of the log outgrows the cached old one; rebuilds at the new head and around the old head must equal a change-fed shadow of the new log.",
+}
+
 NOT_YET = {
  "C07": "check under construction in this framework (reference-model monitor); not claimed yet",
  "C08": "check under construction; not claimed yet",
@@ -95,7 +113,7 @@ def main():
             "evidence_file": "evidence/%s.json" % pid,
             "replay_cmd_template": "./check %s --replay {path}" % pid,
             "engine": "vcheck",
-            "level_claimed": {"category": c["level"], "text": c["text"], "design_ref": "DESIGN.md section 2, %s" % pid},
+            "level_claimed": {"category": c["level"], "text": c["text"] + EXTRA.get(pid, ""), "design_ref": "DESIGN.md section A.3 and section 2, %s" % pid},
             "level_note": c["note"],
             "technique": c["tech"],
         })
